@@ -41,6 +41,9 @@ struct Medium {
     Fault fault;
     bool crashed = false, fault_fired = false;
     bool oob = false; uint32_t oob_addr = 0; size_t oob_len = 0;
+    // a second task scheduled at a seam point: before the (intrude_at)-th medium call of the current op is served, another instance (own medium, own
+    // configuration) does a store / validate / fetch of its own. Neither may see anything of the other.
+    int64_t intrude_at = -1; void (*intruder)(Ctx *, int64_t) = nullptr; int64_t intruder_arg = 0;
 
     uint8_t *at(uint32_t addr, size_t n, size_t &ok_n) {
         int64_t idx = (int64_t)addr - (int64_t)place + (int64_t)GUARD;
@@ -52,6 +55,7 @@ struct Medium {
     size_t access(bool write, uint32_t addr, void *rbuf, const void *wbuf, size_t n) {
         c->step_budget();
         uint64_t k = calls++;
+        if (intruder && intrude_at >= 0 && (uint64_t)intrude_at == k) { void (*f)(Ctx *, int64_t) = intruder; intruder = nullptr; f(c, intruder_arg); }
         size_t todo = n;
         bool crash_after = false;
         if (fault.at >= 0 && (uint64_t)fault.at == k) {
@@ -130,12 +134,29 @@ struct Store {
     }
 };
 
+// the second task (see Medium::intruder): a small instance of its own on a medium of its own
+static void second_instance_job(Ctx *c, int64_t arg) {
+    Medium *outer = g_med;
+    Medium m2; m2.c = c; Config cf;
+    cf.N = 3 + (size_t)(arg & 15); cf.ck = (int)((arg >> 4) % 5); cf.init = cf.ck ? 0x1234u + (uint32_t)arg : 0; cf.place = 64 + (uint32_t)((arg >> 8) & 63); cf.aux = ((arg >> 14) & 1) ? (int64_t)((arg >> 15) & 7) : -1;
+    m2.place = cf.place; m2.region = cf.cks() + cf.N; m2.mem.assign(GUARD + m2.region + GUARD, 0x3c);
+    g_med = &m2;
+    Store st2; st2.make(cf);
+    Bytes img(cf.N), back(cf.N, 0); for (size_t i = 0; i < cf.N; ++i) img[i] = (uint8_t)(0x51 ^ (i * 13 + (size_t)arg));
+    PersistentAccess a1 = persistent_store(&st2.ps, img.data()), a2 = persistent_validate(&st2.ps), a3 = persistent_fetch(back.data(), &st2.ps);
+    uint32_t stored = 0; memcpy(&stored, m2.mem.data() + GUARD, cf.cks());
+    bool ok = a1 == PERSISTENT_ACCESS_SUCCESS && a2 == PERSISTENT_ACCESS_SUCCESS && a3 == PERSISTENT_ACCESS_SUCCESS && back == img && !m2.oob && stored == (cf.cks() == 2 ? (cf.ref(img.data(), cf.N) & 0xffffu) : cf.ref(img.data(), cf.N));
+    g_med = outer;
+    COUNT("probe.second_instance_worked_during_a_medium_call");
+    if (!ok) c->fail("intruder.roundtrip", "a second instance (N=%zu ck=%d aux=%lld) that stored, validated and fetched while another instance's medium call was pending got %d/%d/%d, image %s, checksum %s", cf.N, cf.ck, (long long)cf.aux, (int)a1, (int)a2, (int)a3, back == img ? "intact" : "wrong", "see medium");
+}
+
 struct PsHarness : Harness {
     const char *name() const override { return "pssim"; }
     std::vector<std::string> props() const override { return {"C10", "C11"}; }
     std::string level(const std::string &p) const override { return p == "C11" ? "fault_enumeration" : "exploration"; }
     std::vector<std::string> probes(const std::string &p) const override {
-        if (p == "C10") return {"aux_size_0", "aux_size_1", "aux_size_N_minus_1", "aux_size_N", "aux_size_N_plus_1", "partial_store_ends_at_last_octet", "overflow_pair_refused", "reconfigured_checksum_width", "placed_before_checksum_selection", "operation_failed_then_session_continued", "image_of_64k_octets_or_more"};
+        if (p == "C10") return {"aux_size_0", "aux_size_1", "aux_size_N_minus_1", "aux_size_N", "aux_size_N_plus_1", "partial_store_ends_at_last_octet", "overflow_pair_refused", "reconfigured_checksum_width", "placed_before_checksum_selection", "operation_failed_then_session_continued", "image_of_64k_octets_or_more", "second_instance_worked_during_a_medium_call"};
         return {"crash_between_data_and_checksum_write", "tear_inside_checksum", "short_read_in_last_call", "validated_new_image_after_cut", "validated_old_image_after_cut"};
     }
     uint64_t runs(const std::string &p, const Tier &t) const override {
@@ -230,6 +251,7 @@ struct PsHarness : Harness {
         for (int i = 0; i < n; ++i) {
             Json o = gen_op(r, N, prop == "C10");
             const std::string k = o.gets("op");
+            if (prop == "C10" && r.chance(1, 8) && k != "restart" && k != "bitrot") { Json ij = Json::arr(); ij.push((long long)r.below(8)); ij.push((long long)r.below(1 << 20)); o["intrude"] = ij; }
             if (prop == "C10" && r.chance(1, 8) && k != "restart" && k != "bitrot") { Json f = Json::arr(); f.push((long long)r.below(6)); f.push((long long)(1 + r.below(2))); f.push((long long)r.range(1, 3)); o["fault"] = f; }
             ops.push(o);
         }
@@ -282,6 +304,8 @@ struct PsHarness : Harness {
         OpResult R; Ctx &c = W.c;
         const std::string op = o.gets("op");
         W.med.log.clear(); W.med.calls = 0; W.med.crashed = false; W.med.fault_fired = false; W.med.oob = false;
+        W.med.intruder = nullptr;
+        if (o.has("intrude") && c.prop == "C10") { const Json &ij = o.get("intrude"); W.med.intrude_at = ij.ati(0, 0); if (W.med.intrude_at < 0 || W.med.intrude_at > 4096) W.med.intrude_at = 0; W.med.intruder_arg = ij.ati(1, 0) & 0xfffff; W.med.intruder = second_instance_job; }
         const size_t N = W.cf.N;
         int64_t off = o.geti("off"), len = o.geti("len");
         size_t soff = (size_t)off, slen = (size_t)len;   // negative values wrap to SIZE_MAX - x on purpose
